@@ -76,9 +76,13 @@ Stages(c) ==
 BankOfStage(c, st) == IF ~c.equiv THEN {<<0, 0>>} ELSE IF st.bank = "up" THEN c.upbank ELSE c.bank
 
 (* ---- one stage: new signature, or the reason it cannot run ---- *)
+(* an input block is read only if some declared target has a filter type for it in the bank: the layer keeps an EMPTY weight table
+   for a declared input type that feeds nothing and skips the block, so a channel count that differs from the declared one is
+   harmless there (it does matter, and raises, as soon as one weight block exists) *)
+Feeds(c, st, t) == \E e \in st.dout : FType(t, e[1]) \in BankOfStage(c, st)
 ConvProblem(c, st, S) ==
   IF ~(TypesOf(S) \subseteq TypesOf(st.din)) THEN "conv: the input holds a type the layer has no weights for"
-  ELSE IF \E t \in TypesOf(S) : Chan(S, t) # Chan(st.din, t) THEN "conv: channel count differs from the declared input signature"
+  ELSE IF \E t \in TypesOf(S) : Feeds(c, st, t) /\ Chan(S, t) # Chan(st.din, t) THEN "conv: channel count differs from the declared input signature"
   ELSE "ok"
 ConvResult(c, st, S) == {e \in st.dout : Reachable(TypesOf(S), e[1], BankOfStage(c, st))}
 
